@@ -121,6 +121,12 @@ fn units() -> Vec<(&'static str, &'static str, &'static str)> {
             "#[::entrait::entrait(DRepoImpl, delegate_by = ref)]\npub trait @T@ { fn dget(&self, x: u64) -> u64; }\npub struct MyDRepo;\n#[::entrait::entrait(ref)]\nimpl DRepoImpl for MyDRepo {\n    pub fn dget(_deps: &impl ::core::any::Any, x: u64) -> u64 { x + 15 }\n}\nimpl ::core::convert::AsRef<dyn DRepoImpl<App>> for App { fn as_ref(&self) -> &(dyn DRepoImpl<App> + 'static) { &MyDRepo } }\n",
             "{ let app = ::entrait::Impl::new(App); <::entrait::Impl<App> as @T@>::dget(&app, 5) }",
         ),
+        // an associated type named like one of a supertrait (`Deref::Target`): the forwarded type has to say whose it means
+        (
+            "trait_assoc_type_named_like_a_supertraits",
+            "#[::entrait::entrait]\npub trait @T@: ::core::ops::Deref { type Target; fn cfg_get(&self) -> u64; }\nimpl ::core::ops::Deref for App { type Target = u64; fn deref(&self) -> &u64 { &7 } }\nimpl @T@ for App { type Target = u8; fn cfg_get(&self) -> u64 { 9 } }\n",
+            "{ let app = ::entrait::Impl::new(App); let _: ::core::option::Option<<::entrait::Impl<App> as @T@>::Target> = ::core::option::Option::Some(1u8); <::entrait::Impl<App> as @T@>::cfg_get(&app) }",
+        ),
         // the delegation-target trait is called `T` - a name the generated selector trait must not use for a parameter of its own
         (
             "inversion_target_named_t",
